@@ -20,7 +20,10 @@ import logging
 from common import *
 
 chk = Check('C14')
-chk.extra['rule'] = ('residue chains (2-4 residues, template atoms N CA C O CB [CG]) with 0-3 attachments drawn '
+chk.extra['rule'] = ('[streams added in the extension round: identify_ptms called directly with annotated=None; processor histories = one '
+                     'CanonicalizeModifications instance over 2-3 molecules whose force fields have equal / different names and different '
+                     'modification sets or are one object edited in between, run_molecule and run_system; real charmm residues with the shipped '
+                     'charmm modifications compared with the model; warning records with residue names and atom names compared] residue chains (2-4 residues, template atoms N CA C O CB [CG]) with 0-3 attachments drawn '
                      'from a toy library (N-ter/NH, OXT/COOH, phosphate with and without H, methyl with replace, '
                      'bridges over two residues, ring on CA+CB with and without the CA-CB edge, anchor-only, random '
                      'patterns and their sub-patterns), attachments with wrong element / extra atom / extra bond, '
@@ -35,7 +38,7 @@ chk.extra['rule'] = ('residue chains (2-4 residues, template atoms N CA C O CB [
                      'iteration; distinct = distinct protocol line')
 chk.trusted.append('harness/c14.py: object construction, recording wrappers, canonicalisation, Python oracle '
                    '(own brute-force placement enumeration and exact-cover search)')
-chk.lean(['VermouthProps.C14'], 'driver_c14')
+chk.lean(['VermouthProps.C14', 'VermouthProps.C14_Whole'], 'driver_c14')
 
 import networkx as nx
 import vermouth
@@ -53,8 +56,20 @@ SKIP_ATTRS = {'resid', 'PTM_atom', 'modifications', 'modification', 'graph', 'at
 # spec = {'atoms': [[key, resid, ptm, hasModKey, [mod idx], {attr: str|None}]], 'edges': [[u, v]],
 #         'mods': [{'name': str, 'atoms': [[key, ptm, {attr: str|None}, replace|None]], 'edges': [[u, v]]}]}
 
-def build(spec):
-    ff = ForceField(name='c14')
+def midx(mods, g):
+    """index of the modification object `g` in the library of the molecule's own force field; -1 if the object
+    does not belong to it (a modification of another force field)"""
+    for i, m in enumerate(mods):
+        if m is g:
+            return i
+    return -1
+
+
+def build(spec, ff=None, ffname='c14'):
+    if ff is None:
+        ff = ForceField(name=ffname)
+    else:
+        ff.modifications.clear()      # the same ForceField object, its modifications edited between two uses
     mods = []
     for ms in spec['mods']:
         mod = Modification(force_field=ff)
@@ -162,8 +177,9 @@ class NxProxy:
         return getattr(nx, name)
 
 
-def run_real(spec, mods, mol):
-    """Run fix_ptm with wrappers; returns dict(status, iters, records)."""
+def run_real(spec, mods, mol, processor=None, via_system=False):
+    """Run fix_ptm with wrappers; returns dict(status, iters, records).  `processor`: an existing
+    CanonicalizeModifications instance (histories); `via_system`: call run_system on a System holding `mol`."""
     iters = []
     depth = [0]
     top_len = [None]
@@ -197,9 +213,9 @@ def run_real(spec, mods, mol):
             out = orig_identify(residue, residue_ptms, known_ptms, *rest, **kw)
         finally:
             it['unstable'] = any(gm.unstable for _, gm in known_ptms)
-            it['options'] = [(mods.index(g), [sorted(m.items()) for m in gm.placements()]) for g, gm in known_ptms]
+            it['options'] = [(midx(mods, g), [sorted(m.items()) for m in gm.placements()]) for g, gm in known_ptms]
         ncov = top_len[0] or 0
-        entries = [(mods.index(p), sorted(m.items())) for p, m in out]
+        entries = [(midx(mods, p), sorted(m.items())) for p, m in out]
         it['used'] = entries[:len(entries) - ncov]
         it['result'] = entries[len(entries) - ncov:]
         return out
@@ -214,7 +230,15 @@ def run_real(spec, mods, mol):
     RecGM.in_cover = 0
     status = 'ok'
     try:
-        canmod.CanonicalizeModifications().run_molecule(mol)
+        proc = processor if processor is not None else canmod.CanonicalizeModifications()
+        if via_system:
+            system = vermouth.System(force_field=mol.force_field)
+            system.add_molecule(mol)
+            proc.run_system(system)
+            if len(system.molecules) != 1 or system.molecules[0] is not mol:
+                raise AssertionError('run_system replaced the molecule')
+        else:
+            proc.run_molecule(mol)
     except KeyError:
         status = 'crash-keyerror'
     except AssertionError:
@@ -245,6 +269,16 @@ def warnings_of(run):
     return out
 
 
+def warn_rec(w):
+    """[residue names, [[key, atomname as printed]]] of one warning record"""
+    m = re.search(r"for residues \[(.*?)\], involving atoms \[(.*)\]\s*$", w['msg'])
+    if not m:
+        return [[], []]
+    res = re.findall(r"'([^']*)'", m.group(1))
+    ats = sorted([int(a) - 1, n] for a, n in re.findall(r"'(-?\d+)-([^']*)'", m.group(2)))
+    return [res, ats]
+
+
 def impl_canon(spec, mods, mol, run, sortmods):
     if run['status'] != 'ok':
         return run['status']
@@ -260,12 +294,15 @@ def impl_canon(spec, mods, mol, run, sortmods):
     atoms = []
     for k in sorted(mol.nodes):
         nd = mol.nodes[k]
-        ml = [mods.index(m) for m in nd.get('modifications', [])]
+        ml = [midx(mods, m) for m in nd.get('modifications', [])]
         if sortmods:
             ml = sorted(ml)
         atoms.append([k, int(bool(nd.get('PTM_atom', False))), ml, attrs_list(nd)])
-    warns = [sorted(w['atoms'] or []) for w in warnings_of(run)]
-    return 'ok ' + ('[ ' + ' '.join(logs) + ' ]' if logs else '[ ]') + ' ' + enc(atoms) + ' ' + enc(warns)
+    wl = warnings_of(run)
+    warns = [sorted(w['atoms'] or []) for w in wl]
+    removed = sorted(a[0] for a in spec['atoms'] if a[0] not in mol.nodes)
+    return ('ok ' + ('[ ' + ' '.join(logs) + ' ]' if logs else '[ ]') + ' ' + enc(atoms) + ' ' + enc(warns)
+            + ' ' + enc([warn_rec(w) for w in wl]) + ' removed=' + enc(removed))
 
 
 # ----------------------------------------------------------------------------
@@ -350,6 +387,40 @@ def exact_cover_exists(nonptm, to_cover, placements):
     return rec(to_cover, frozenset())
 
 
+def explained_by_known(snap, edges, groups, annot, mods):
+    """A group annotated on the input is explained when each annotated modification has an induced placement
+    by atom name inside the group and these placements cover the group; the other groups are explained when an
+    exact cover by induced placements (anchors by name, added atoms by element) exists."""
+    plain = [g for g in groups if not any(annot.get(a) for a in g[0])]
+    noted = [g for g in groups if any(annot.get(a) for a in g[0])]
+    explained = True
+    for g in noted:
+        wanted = []
+        for a in sorted(g[0]):
+            for mi in annot.get(a) or []:
+                if mi not in wanted:
+                    wanted.append(mi)
+        covered = set()
+        for mi in wanted:
+            pls = py_name_placements(snap, edges, g[0], mods[mi])
+            if not pls:
+                explained = False
+            for pl in pls:
+                covered |= set(pl)
+        if covered != set(g[0]):
+            explained = False
+    if explained and plain:
+        nonptm = frozenset(t for t, v in snap.items() if not v[2])
+        tc = set()
+        for g in plain:
+            tc |= g[0] | g[1]
+        allp = []
+        for mod in mods:
+            allp += py_placements(snap, edges, mod)
+        explained = exact_cover_exists(nonptm, tc, [set(p) for p in allp])
+    return explained
+
+
 def oracle(spec, mods, mol0, mol, run):
     errs = []
     flagged = [k for k, r, p, h, ml, at in spec['atoms'] if p]
@@ -358,6 +429,19 @@ def oracle(spec, mods, mol0, mol, run):
             errs.append('fix_ptm raised (%s): flagged atoms %s are neither labelled nor removed with a warning'
                         % (run['status'], flagged[:6]))
         return errs
+    # every modification the run worked with belongs to the force field of the molecule
+    foreign = set()
+    for it in run['iters']:
+        for mi, _ in (it['options'] or []) + (it['used'] or []) + (it['result'] or []):
+            if mi < 0:
+                foreign.add('a candidate / identified modification')
+    for k in mol.nodes:
+        for m in mol.nodes[k].get('modifications', []):
+            if midx(mods, m) < 0:
+                foreign.add('label %s on atom %d' % (getattr(m, 'name', '?'), k))
+    if foreign:
+        return ['a modification that the force field of the molecule does not know was used: %s (known: %s)'
+                % (sorted(foreign)[:3], [m.name for m in mods])]
     warns = warnings_of(run)
     for w in warns:
         if w['type'] != 'unknown-input' or not w['name'].startswith('vermouth'):
@@ -474,37 +558,9 @@ def oracle(spec, mods, mol0, mol, run):
     for ii, it in enumerate(run['iters']):
         if it['result'] is not None:
             continue
-        snap = it['snap']
-        if any(a not in snap for g in it['groups'] for a in g[0]):
+        if any(a not in it['snap'] for g in it['groups'] for a in g[0]):
             continue  # an atom with a foreign resid: outside the residue, nothing can be placed on it
-        plain = [g for g in it['groups'] if not any(annot.get(a) for a in g[0])]
-        noted = [g for g in it['groups'] if any(annot.get(a) for a in g[0])]
-        explained = True
-        for g in noted:
-            wanted = []
-            for a in sorted(g[0]):
-                for mi in annot.get(a) or []:
-                    if mi not in wanted:
-                        wanted.append(mi)
-            covered = set()
-            for mi in wanted:
-                pls = py_name_placements(snap, it['edges'], g[0], mods[mi])
-                if not pls:
-                    explained = False
-                for pl in pls:
-                    covered |= set(pl)
-            if covered != set(g[0]):
-                explained = False
-        if explained and plain:
-            nonptm = frozenset(t for t, v in snap.items() if not v[2])
-            tc = set()
-            for g in plain:
-                tc |= g[0] | g[1]
-            allp = []
-            for mod in mods:
-                allp += py_placements(snap, it['edges'], mod)
-            explained = exact_cover_exists(nonptm, tc, [set(p) for p in allp])
-        if explained:
+        if explained_by_known(it['snap'], it['edges'], it['groups'], annot, mods):
             errs.append('atoms %s were removed / reported as unknown input although known modifications cover '
                         'them exactly' % sorted(a for g in it['groups'] for a in g[0]))
     # an atom the residue template accounted for is never removed
@@ -512,6 +568,30 @@ def oracle(spec, mods, mol0, mol, run):
         if not p and k not in mol.nodes:
             errs.append('recognised template atom %d (%s) is missing from the output' % (k, at.get('atomname')))
     return errs
+
+
+F6_KNOWN = any(k.get('id') == 'F-C14-6' and k.get('status') == 'known' for k in chk.known)
+
+
+def f6_signature(spec, mol, run):
+    """F-C14-6: a flagged atom that belongs to a group annotated on the input, whose iteration failed while
+    the annotation itself explained the atom (the set of the group is emptied in place before the cover search
+    fails on another group): the atom stays, named by no warning, unlabelled by this run."""
+    if run['status'] != 'ok':
+        return False
+    annot = {k: ml for k, r, p, h, ml, at in spec['atoms']}
+    flagged = {k for k, r, p, h, ml, at in spec['atoms'] if p}
+    warned = set()
+    for w in warnings_of(run):
+        warned.update(w['atoms'] or [])
+    for it in run['iters']:
+        if it['result'] is not None:
+            continue
+        for g in it['groups']:
+            if any(annot.get(a) for a in g[0]):
+                if any(a in flagged and a in mol.nodes and a not in warned for a in g[0]):
+                    return True
+    return False
 
 
 def spec_mods_of(spec, a):
@@ -637,6 +717,7 @@ def gen_case(rng):
         resids.append(rid)
         rid += rng.choice([1, 1, 1, 2])
     hist = []
+    pre_done = set()
     natt = rng.choice([0, 1, 1, 2, 2, 3])
     all_L = lib_fixed()
     for _ in range(natt):
@@ -670,6 +751,14 @@ def gen_case(rng):
         # applied through `modify`: canonical names, pre-labelled (only patterns with distinct atom names:
         # apply_mod_to_block works on one block whose atom names are unique)
         pre = rng.random() < 0.08 and src in lib and len({a[2]['atomname'] for a in matoms}) == len(matoms)
+        if pre and (src, ri) in pre_done:
+            # the same modification annotated twice on one residue would give two atoms of one residue the same
+            # name: outside the contract of fix_ptm (atom names are correct, i.e. unique per residue) - the
+            # attachment is generated as an ordinary flagged one instead
+            pre = False
+            hist.append('excluded_same_annotation_twice')
+        if pre:
+            pre_done.add((src, ri))
         foreign = rng.random() < 0.05
         for a in ptm_m:
             attrs = A(a[2]['atomname'] if pre else 'X%d' % key, a[2]['element'],
@@ -946,7 +1035,8 @@ def gen_annot(rng):
     L['MN2'] = ([[0, 0, A('N', 'N'), None], [1, 0, A('CA', 'C'), None], [2, 1, A('H2', 'H'), None],
                  [3, 1, A('H3', 'H'), None]], [[0, 1], [0, 2], [0, 3]])                                  # key [r-1, r] or [r]
     L['MC'] = ([[0, 0, A('C', 'C'), None], [1, 0, A('O', 'O'), None], [2, 1, A('OXT', 'O'), None]], [[0, 1], [0, 2]])
-    ann = rng.choice(['MCG', 'MCB', 'MN2', 'MC'])
+    L['MCH'] = ([[0, 0, A('CG', 'C'), None], [1, 1, A('HX', 'H'), None], [2, 1, A('HY', 'H'), None]], [[0, 1], [1, 2]])
+    ann = rng.choice(['MCG', 'MCB', 'MN2', 'MC', 'MCH'])
     names = [ann, 'NH', 'OXT', 'SH', 'RING', 'XL'] + rng.sample(['COOH', 'PHOS', 'ANCHOR', 'OO', 'ME', 'MCG', 'MCB'], rng.randint(0, 2))
     names = list(dict.fromkeys(names))
     rng.shuffle(names)
@@ -957,9 +1047,16 @@ def gen_annot(rng):
     hist = ['annot_' + ann]
     mi = names.index(ann)
     place = {}
+    # F-C14-6 (only generated once it is listed as known): the last added atom of the annotated modification
+    # is present under its canonical name but flagged PTM_atom and not annotated
+    canon_flagged = F6_KNOWN and ann == 'MCH' and rng.random() < 0.5
     for a in L[ann][0]:
         if a[1]:
-            atoms.append([key, rid, 0, 0, [mi], A(a[2]['atomname'], a[2]['element'], resname='ALA')])
+            if canon_flagged and a[0] == 2:
+                atoms.append([key, rid, 1, 0, [], A(a[2]['atomname'], a[2]['element'], resname='ALA')])
+                hist.append('annot_canonical_name_flagged')
+            else:
+                atoms.append([key, rid, 0, 0, [mi], A(a[2]['atomname'], a[2]['element'], resname='ALA')])
             place[a[0]] = key
             key += 1
         else:
@@ -1074,11 +1171,176 @@ for j, (cid, spec, mods, mol0, mol, run) in enumerate(meta):
     for h in spec.get('hist', []):
         chk.count('attach_' + h)
     chk.count('candidates=%s' % ('0' if ncand == 0 else '1' if ncand == 1 else '2-5' if ncand <= 5 else '6+'))
-    chk.case(cid, lines[2 * j], impls[2 * j], models[2 * j], errs, nontriv)
+    f6 = f6_signature(spec, mol, run)
+    if f6:
+        chk.count('finding_F-C14-6_signature')
+    if f6 and not F6_KNOWN and cid.startswith('corpus-f6'):
+        # the pinned witness of F-C14-6 while the finding is not yet listed in known_findings.json: model and
+        # real code are compared (both keep the flagged atom unlabelled; Lean: annotated_flagged_kept_witness),
+        # the oracle failure is recorded as a count only
+        chk.count('finding_F-C14-6_witness_oracle_errors=%d' % len(errs))
+        errs = []
+    chk.case(cid, lines[2 * j], impls[2 * j], models[2 * j], errs, nontriv, finding='F-C14-6' if f6 else None)
     chk.case(cid + '-groups', lines[2 * j + 1], impls[2 * j + 1], models[2 * j + 1], [], nflag >= 2)
 
 # ----------------------------------------------------------------------------
-# real charmm modifications on real residues (oracle only)
+# processor histories: ONE CanonicalizeModifications instance processes 2-3 molecules whose force fields are
+# different objects with equal or different names and different modification sets, or the same object with its
+# modifications edited in between; run_molecule and run_system.  Every step is compared with the model (Lean
+# `Proc.runHistory`, theorem processor_stateless), with a fresh processor on a copy, and judged by the oracle.
+# ----------------------------------------------------------------------------
+def history_job(spec, given, sortmods):
+    atoms = [[k, r, int(bool(p_)), int(bool(h)), list(ml), sorted([a, v] for a, v in at.items())]
+             for k, r, p_, h, ml, at in spec['atoms']]
+    mods_l = [[m['name'],
+               [[k, int(bool(p_)), sorted([a, v] for a, v in at.items()),
+                 None if rp is None else [[a, v] for a, v in rp.items()]] for k, p_, at, rp in m['atoms']],
+               [list(e) for e in m['edges']]] for m in spec['mods']]
+    return [atoms, [list(e) for e in spec['edges']], mods_l, given, sortmods]
+
+
+rng7 = chk.rng('histories')
+hl, hi, hm = [], [], []
+for i in range(min(N // 12, 1200)):
+    proc = canmod.CanonicalizeModifications()
+    nstep = rng7.choice([2, 2, 3])
+    naming = rng7.choice(['same-name', 'same-name', 'different-names', 'same-object-edited'])
+    ff_prev = None
+    jobs, impls, errs_all = [], [], []
+    for st in range(nstep):
+        spec = rng7.choice([gen_case, gen_two_iter, gen_annot, gen_standin])(rng7)
+        ffname = 'c14' if naming != 'different-names' else 'c14_%d' % st
+        ff, mods, mol = build(spec, ff=ff_prev if naming == 'same-object-edited' else None, ffname=ffname)
+        if naming == 'same-object-edited':
+            ff_prev = ff
+        mol0 = mol.copy()
+        # the same molecule through a fresh processor
+        ff2, mods2, mol_fresh = build(spec, ffname=ffname)
+        run_fresh = run_real(spec, mods2, mol_fresh)
+        via_system = rng7.random() < 0.4
+        run = run_real(spec, mods, mol, processor=proc, via_system=via_system)
+        given = [[[[list(q) for q in p_] for p_ in pls] for _, pls in it['options']] for it in run['iters']]
+        sortmods = int(any(len(it['used'] or []) >= 2 for it in run['iters'])
+                       or sum(1 for it in run['iters'] if it['used']) >= 1 and any(
+                           len([g for g in it['groups'] if any(spec_mods_of(spec, a) for a in g[0])]) >= 2
+                           for it in run['iters']))
+        jobs.append(history_job(spec, given, sortmods))
+        impl = impl_canon(spec, mods, mol, run, sortmods)
+        impls.append(impl)
+        errs = oracle(spec, mods, mol0, mol, run)
+        fresh = impl_canon(spec, mods2, mol_fresh, run_fresh, sortmods)
+        if fresh != impl:
+            errs.append('step %d of a history on one processor instance differs from a fresh processor on the same '
+                        'molecule (force field named %r, modifications %s)' % (st, ffname, [m.name for m in mods]))
+        errs_all += ['step %d: %s' % (st, e) for e in errs]
+        chk.count('history_step_' + ('run_system' if via_system else 'run_molecule'))
+    chk.count('history_' + naming)
+    hl.append(line('history', jobs))
+    hi.append(' || '.join(impls))
+    hm.append(errs_all)
+hmodels = chk.drv.ask(hl) if chk.lean_ok else [None] * len(hl)
+for i in range(len(hl)):
+    chk.case('history-%d' % i, hl[i], hi[i], hmodels[i], hm[i], True)
+
+# ----------------------------------------------------------------------------
+# identify_ptms called directly (the way the test-suite and other callers use it): `annotated=None`, the
+# modifications already known are read from the nodes of the residue.  The whole molecule is the residue.
+# ----------------------------------------------------------------------------
+def run_identify_direct(spec):
+    ff, mods, mol = build(spec)
+    ptms = canmod.find_ptm_atoms(mol)
+    groups = [[sorted(a), sorted(b)] for a, b in ptms]
+    depth, top_len = [0], [None]
+    orig_cover, orig_nx = canmod._cover_graph, canmod.nx
+
+    def cover_wrap(graph, to_cover, fragments):
+        depth[0] += 1
+        RecGM.in_cover += 1
+        try:
+            out = orig_cover(graph, to_cover, fragments)
+        finally:
+            depth[0] -= 1
+            RecGM.in_cover -= 1
+        if depth[0] == 0:
+            top_len[0] = len(out)
+        return out
+
+    canmod._cover_graph, canmod.nx = cover_wrap, NxProxy()
+    RecGM.created, RecGM.in_cover = [], 0
+    options = []
+    try:
+        options = sorted(canmod.allowed_ptms(mol, ptms, ff.modifications),
+                         key=lambda opt: len([n for n in opt[0] if opt[0].nodes[n].get('PTM_atom', False)]),
+                         reverse=True)
+        try:
+            out = canmod.identify_ptms(mol, ptms, options)
+            ncov = top_len[0] or 0
+            entries = [(mods.index(p_), sorted(m.items())) for p_, m in out]
+            used = sorted(enc_entry(e) for e in entries[:len(entries) - ncov])
+            cov = [enc_entry(e) for e in entries[len(entries) - ncov:]]
+            res = 'ok ' + ('[ ' + ' '.join(used) + ' ]' if used else '[ ]') + ' ' + ('[ ' + ' '.join(cov) + ' ]' if cov else '[ ]')
+        except KeyError:
+            res = 'keyerror ' + enc(sorted(idx for idxs in ptms for idx in idxs[0]))
+        except RecursionError:
+            res = 'crash-recursion'
+    finally:
+        canmod._cover_graph, canmod.nx = orig_cover, orig_nx
+    given = [[[list(q) for q in sorted(m.items())] for m in gm.placements()] for _, gm in options]
+    atoms_l = [[k, r, int(bool(p_)), int(bool(h)), list(ml), sorted([a, v] for a, v in at.items())]
+               for k, r, p_, h, ml, at in spec['atoms']]
+    mods_l = [[m['name'],
+               [[k, int(bool(p_)), sorted([a, v] for a, v in at.items()),
+                 None if rp is None else [[a, v] for a, v in rp.items()]] for k, p_, at, rp in m['atoms']],
+               [list(e) for e in m['edges']]] for m in spec['mods']]
+    ln = line('identify', atoms_l, [list(e) for e in spec['edges']], mods_l, groups, given)
+    impl = enc([mods.index(g) for g, _ in options]) + ' 1 ' + res
+    # independent statement: a returned cover contains every atom of every group; KeyError leaves the molecule alone
+    errs = []
+    snap = {k: (at.get('atomname'), at.get('element'), bool(p_)) for k, r, p_, h, ml, at in spec['atoms']}
+    sedges = sorted(tuple(sorted(e)) for e in mol.edges)
+    annot = {k: ml for k, r, p_, h, ml, at in spec['atoms']}
+    ogroups = [(set(a), set(b)) for a, b in groups]
+    if res.startswith('ok'):
+        ncov = top_len[0] or 0
+        for p_, m in out:
+            if set(m.values()) != set(p_.nodes) or len(set(m)) != len(m):
+                errs.append('identify_ptms returned a placement of %s that does not map every node once' % p_.name)
+        for p_, m in out[len(out) - ncov:]:
+            if not any(c == m for c in py_placements(snap, sedges, p_)):
+                errs.append('identify_ptms chose a placement of %s on %s that is not induced with anchors by name and '
+                            'added atoms by element' % (p_.name, sorted(m)))
+        for a, b in ogroups:
+            for x in a:
+                n_in = sum(1 for _, m in out if x in m)
+                if n_in == 0:
+                    errs.append('identify_ptms returned a cover that leaves atom %d of a group out' % x)
+                elif n_in > 1 and snap[x][2] and not any(annot.get(y) for y in a):
+                    errs.append('identify_ptms covered the flagged atom %d %d times' % (x, n_in))
+    elif res.startswith('keyerror'):
+        if explained_by_known(snap, sedges, ogroups, annot, mods):
+            errs.append('identify_ptms raised KeyError although known modifications explain the groups %s'
+                        % [sorted(a) for a, _ in ogroups])
+    return ln, impl, errs, groups, res
+
+
+rng6 = chk.rng('identify-direct')
+dl, di, dm = [], [], []
+for i in range(min(N // 6, 2500)):
+    gen = [gen_annot, gen_annot, gen_case, gen_standin, gen_two_iter][i % 5]
+    spec = gen(rng6)
+    ln, impl, errs, groups, res = run_identify_direct(spec)
+    dl.append(ln)
+    di.append(impl)
+    dm.append((errs, groups, res, spec))
+dmodels = chk.drv.ask(dl) if chk.lean_ok else [None] * len(dl)
+for i, (errs, groups, res, spec) in enumerate(dm):
+    chk.count('identify_direct_' + res.split()[0])
+    if any(a[4] for a in spec['atoms']):
+        chk.count('identify_direct_with_live_annotations')
+    chk.case('identify-%d' % i, dl[i], di[i], dmodels[i], errs, len(groups) >= 1)
+
+# ----------------------------------------------------------------------------
+# real charmm modifications on real residues (model + oracles)
 # ----------------------------------------------------------------------------
 exec(open(os.path.join(os.path.dirname(os.path.abspath(__file__)), 'c14_charmm.py')).read())
 chk.finish()
